@@ -1,5 +1,6 @@
 """C07 - clones are faithful, self-contained and independent of the original."""
 from simkit.engine import Prop, run_events
+from simkit import oplang
 from simkit.gen_hier import hier_config, Builder, ScriptGen
 from simkit.gen_iredit import swarm_config, Gen
 from simkit.model import scan, Snapshot, FIELDS
@@ -98,9 +99,19 @@ class C07Gen:
             self.phase = "second"
             if self.cfg["mode"] == "hier" and r.random() < 0.8:
                 return {"op": "clone", "on": self.netlist_h}
-            kinds = ["netlist", "library", "definition", "instance", "port", "cable", "wire", "ipin"]
+            kinds = ["netlist", "library", "definition", "instance", "port", "cable", "wire", "ipin", "opin"]
             r.shuffle(kinds)
             for k in kinds:
+                if k == "opin":
+                    # an outer pin of an instance as the root (connected ones first: their copy must come back detached
+                    # and the wire they sit on must keep listing the original)
+                    c = [(ih, ip) for ih in w.order if kind_of(w.handles[ih]) == "instance"
+                         for ip in w.handles[ih].pins.keys() if w.handle_of(ip)]
+                    c.sort(key=lambda t: w.handles[t[0]].pins[t[1]].wire is None)
+                    if c:
+                        ih, ip = c[0] if r.random() < 0.7 else r.choice(c)
+                        return {"op": "clone", "pin": {"k": r.choice(["stored", "stored", "proxy"]), "i": ih, "p": w.handle_of(ip)}}
+                    continue
                 c = [h for h in w.order if kind_of(w.handles[h]) == k]
                 if c:
                     return {"op": "clone", "on": r.choice(c)}
@@ -228,7 +239,13 @@ class C07(Prop):
     def before(self, w, ev):
         if ev["op"] != "clone":
             return None
-        src = w.h(ev["on"])
+        if "pin" in ev:
+            try:
+                src = oplang.pinref(w, ev["pin"])
+            except Exception:
+                return None
+        else:
+            src = w.h(ev["on"])
         if src is None:
             return None
         pre = {"src": src, "snap": Snapshot(w.roots()), "kind": kind_of(src)}
@@ -336,6 +353,10 @@ class C07(Prop):
                 raise Violation("C07.%s.data_shared" % kind, kind_of(a), "mutable data value under %r is shared" % k)
 
     # -- per kind ---------------------------------------------------------------------------
+    def post_opin(self, w, s, c, own, pre, disc):
+        if c.wire is not None or c.instance is not None:
+            raise Violation("C07.opin.not_detached", disc, "cloned outer pin keeps instance or wire")
+
     def post_ipin(self, w, s, c, own, pre, disc):
         if c.port is not None or c.wire is not None:
             raise Violation("C07.ipin.not_detached", disc, "cloned pin keeps port or wire")
